@@ -400,3 +400,38 @@ fire("c01-spline-forward-term", "C01", B + "rational_quadratic_spline.py",
      "        num = (yk1 - yk) * (sk * xi**2 + dk * xi * (1 - xi))", "        num = (yk1 - yk) * (sk * xi**2 + dk1 * xi * (1 - xi))", "C01.root")
 fire("c01-spline-inverse-c", "C01", B + "rational_quadratic_spline.py",
      "        c = -sk * (y_robust - yk)", "        c = -sk * (y_robust - yk1)", "C01.root")
+
+# ------------------------------------------------ variants distilled from the second round of seeded changes
+fire("r2-softplus-textbook-inverse", ["C01", "C07", "C11"], B + "softplus.py",
+     "        return jnp.log(-jnp.expm1(-y)) + y", "        return jnp.log(jnp.exp(y) - 1)")
+fire("r2-softplus-log1p-inverse", ["C01", "C11"], B + "softplus.py",
+     "        return jnp.log(-jnp.expm1(-y)) + y", "        return y + jnp.log1p(-jnp.exp(-y))")
+fire("r2-min-scale-floor-not-frozen", "C11", "flowjax/flows.py",
+     "    scale_reparam = Chain([SoftPlus(), non_trainable(Loc(min_scale))])", "    scale_reparam = Chain([SoftPlus(), Loc(min_scale)])", "C11.range")
+fire("r2-weightnorm-plain-scale", ["C09", "C11"], "flowjax/wrappers.py",
+     "        self.scale = BijectionReparam(scale_init, SoftPlus())", "        self.scale = scale_init")
+fire("r2-inverter-tol-floor", ["C10", "C01"], "flowjax/bisection_search.py",
+     "            tol=self.tol,\n            length=bijection.shape[0],", "            tol=max(self.tol, 1e-6),\n            length=bijection.shape[0],")
+fire("r2-spline-derivative-mask", ["C02", "C04", "C07"], B + "rational_quadratic_spline.py",
+     "        \"\"\"The derivative dy/dx of the forward transformation.\"\"\"\n        # Following notation from the paper (eq. 5)\n        x_pos, y_pos, derivatives = self.x_pos, self.y_pos, self.derivatives\n        in_bounds = jnp.logical_and(x >= self.interval[0], x <= self.interval[1])",
+     "        \"\"\"The derivative dy/dx of the forward transformation.\"\"\"\n        # Following notation from the paper (eq. 5)\n        x_pos, y_pos, derivatives = self.x_pos, self.y_pos, self.derivatives\n        in_bounds = jnp.abs(x) <= self.interval[1]")
+fire("r2-reshape-truthy-shape", ["C08", "C13"], B + "utils.py",
+     "        self.shape = shape if shape is not None else bijection.shape", "        self.shape = shape or bijection.shape")
+fire("r2-merge-flatten-then-reverse", ["C03", "C08"], D,
+     "        bijection = Chain(list(reversed(bijections))).merge_chains()",
+     "        bijection = Chain(Chain(bijections).merge_chains().bijections[::-1])")
+fire("r2-mixture-categorical-probs", "C05", D, "        component = jr.categorical(key1, self.log_normalized_weights)",
+     "        component = jr.categorical(key1, jnp.exp(self.log_normalized_weights))", "C05.mix")
+fire("r2-ml-loss-finite-only", "C17", T + "losses.py", "        return -dist.log_prob(x, condition).mean()",
+     "        lps = dist.log_prob(x, condition)\n        return -jnp.mean(lps, where=jnp.isfinite(lps))", "C17.estimator")
+fire("r2-variational-skip-first", "C16", T + "variational_fit.py", "        if loss.item() == min(losses):", "        if loss.item() == min(losses[1:], default=None):", "C16.version")
+fire("r2-data-fit-min-window", "C16", T + "data_fit.py", "        if losses[\"val\"][-1] == min(losses[\"val\"]):", "        if losses[\"val\"][-1] == min(losses[\"val\"][-max_patience:]):", "C16.version")
+fire("r2-bnaf-cond-every-layer-transform-only", ["C01", "C09"], B + "block_autoregressive_network.py",
+     "            x = layer(x)\n            if i == 0 and condition is not None:", "            x = layer(x)\n            if condition is not None:")
+fire("r2-block-tril-k-in-rows", "C09", "flowjax/masks.py", "        row_i = max(0, (i - k)) * block_shape[0]", "        row_i = max(0, i * block_shape[0] - k)", "C09.masks")
+fire("r2-partial-idxs-static", "C14", B + "utils.py", "    idxs: int | slice | Array | tuple\n", "    idxs: int | slice | Array | tuple = eqx.field(static=True)\n", "C14.static")
+fire("r2-weightnorm-absolute-axis", ["C12", "C11", "C09"], "flowjax/wrappers.py",
+     "        weight_norms = jnp.linalg.norm(self.weight, axis=-1, keepdims=True)", "        weight_norms = jnp.linalg.norm(self.weight, axis=1, keepdims=True)")
+fire("r2-mvn-covariance-transposed", "C05", D, "        return cholesky @ cholesky.T", "        return cholesky.T @ cholesky", "C05.cov")
+fire("r2-vmap-accepts-both", "C13", B + "jax_transforms.py",
+     "        if in_axes is not None and axis_size is not None:\n            raise ValueError(\"Cannot specify both in_axes and axis_size.\")\n", "", "C13.ctor")
